@@ -86,6 +86,15 @@ pub fn events(thorough: bool) -> Vec<Ev> {
             }
         }
     }
+    // well-formed messages of 4 and 5 chunks (interior chunks can be permuted while the first and the last stay)
+    for (csize, name) in [(250usize, "well-formed 4-chunk PWB message"), (180, "well-formed 5-chunk PWB message")] {
+        let chans: Vec<(u16, Vec<i16>)> = [4u16, 5, 30].iter().map(|&ro| (ro, pad_samples(ro, 131, 0))).collect();
+        let mut e: Banks = vec![trg(12)];
+        e.extend(pwb_banks("12", 0, &pwb_payload("12", 0, 131, &chans), csize));
+        if e.len() == if csize == 250 { 5 } else { 6 } {
+            v.push(Ev { name, run: sim, banks: e });
+        }
+    }
     // a 4-chunk PWB message in which one chunk carries the id of a neighbour (payload in arrival order would be
     // right under some bank orders and scrambled under others; the id sequence has a hole in every order)
     {
